@@ -12,3 +12,7 @@ CONSTANTS
   ForwardCountedOnce = FALSE
   SourceKeyFromMapping = FALSE
   WithFail = TRUE
+  MaxFlight = 0
+  OfferAtomic = TRUE
+  WithDropped = FALSE
+  DroppedChecksQuota = TRUE
